@@ -168,7 +168,16 @@ def translate():
     except Exception:
         rep['packs'] = {'error': out5[-500:]}
         rep['untranslatable'].append({'name': 'pack layers', 'group': 'Packs', 'why': out5[-500:]})
-    return rep, out + out2 + out3 + out4 + out5
+    # the loop programs of covfie::algebra and the affine layer's lookup (Gen_Algebra.v over MatLang.v)
+    rc6, out6 = sh([sys.executable, os.path.join(VERIF, 'tools', 'cxx_algebra.py'), REPO, os.path.join(COQ, 'gen', 'Gen_Algebra.v')], timeout=300)
+    try:
+        rep['algebra'] = json.loads(out6.strip().split('\n')[-1])
+        for u in rep['algebra']['untranslatable']:
+            rep['untranslatable'].append({'name': u['name'], 'group': 'Algebra', 'why': u['why']})
+    except Exception:
+        rep['algebra'] = {'error': out6[-500:]}
+        rep['untranslatable'].append({'name': 'algebra programs', 'group': 'Algebra', 'why': out6[-500:]})
+    return rep, out + out2 + out3 + out4 + out5 + out6
 
 
 def coq_makefile():
